@@ -24,29 +24,35 @@ structure StageRes where
   interrupt : Bool          -- the caller cancels everything
   err : Bool                -- a non-nil error was collected
   rest : List Arrival       -- arrivals not consumed yet
+  seen : List Comp          -- components whose (only) result was already received: their channel is closed
+  blocked : Bool := false   -- nothing arrives any more and the stage's own component never reported
 deriving DecidableEq, Repr
 
 /-- the repaired rule: wait for `own`; a later component finishing first *with an error*
-interrupts; finishing without error is the natural cascade running ahead and is waited through -/
-def awaitStage (own : Comp) (later : List Comp) : List Arrival → StageRes
-  | [] => ⟨false, false, []⟩                         -- (blocked: nothing more arrives)
+interrupts; finishing without error is the natural cascade running ahead and is waited through.
+`seen`: components whose result an earlier stage already received — their error channel is
+closed, so receiving from it again yields nil at once. -/
+def awaitStage (own : Comp) (later : List Comp) (seen : List Comp) : List Arrival → StageRes
+  | [] => ⟨false, false, [], seen, !seen.contains own⟩
   | a :: rest =>
-    if a.comp = own then ⟨false, a.err, rest⟩
+    if seen.contains own then ⟨false, false, a :: rest, seen, false⟩
+    else if a.comp = own then ⟨false, a.err, rest, own :: seen, false⟩
     else if later.contains a.comp then
-      if a.err then ⟨true, true, rest⟩ else awaitStage own later rest
+      if a.err then ⟨true, true, rest, a.comp :: seen, false⟩ else awaitStage own later (a.comp :: seen) rest
     else
       -- not listened to at this stage: stays pending for a later stage
-      let r := awaitStage own later rest
+      let r := awaitStage own later seen rest
       { r with rest := a :: r.rest }
 
 /-- the pinned rule: whatever arrives first decides; a later component means "something went wrong" -/
-def awaitStageOld (own : Comp) (later : List Comp) : List Arrival → StageRes
-  | [] => ⟨false, false, []⟩
+def awaitStageOld (own : Comp) (later : List Comp) (seen : List Comp) : List Arrival → StageRes
+  | [] => ⟨false, false, [], seen, !seen.contains own⟩
   | a :: rest =>
-    if a.comp = own then ⟨false, a.err, rest⟩
-    else if later.contains a.comp then ⟨true, a.err, rest⟩
+    if seen.contains own then ⟨false, false, a :: rest, seen, false⟩
+    else if a.comp = own then ⟨false, a.err, rest, own :: seen, false⟩
+    else if later.contains a.comp then ⟨true, a.err, rest, a.comp :: seen, false⟩
     else
-      let r := awaitStageOld own later rest
+      let r := awaitStageOld own later seen rest
       { r with rest := a :: r.rest }
 
 structure Outcome where
@@ -54,20 +60,46 @@ structure Outcome where
   conductor had seen the collector's own result -/
   cancelledCollector : Bool
   err : Bool
+  /-- a stage waited for a component that never reported (cannot happen under assumption A) -/
+  blocked : Bool := false
 deriving DecidableEq, Repr
 
 /-- the stages in order; the first interrupt cancels everything that is left, collector included -/
-def conductWith (stage : Comp → List Comp → List Arrival → StageRes) (arrs : List Arrival) : Outcome :=
-  let s1 := stage .pr [.sp, .au, .col] arrs
-  if s1.interrupt then ⟨true, s1.err⟩ else
-  let s2 := stage .sp [.au, .col] s1.rest
-  if s2.interrupt then ⟨true, s1.err || s2.err⟩ else
-  let s3 := stage .au [.col] s2.rest
-  if s3.interrupt then ⟨true, s1.err || s2.err || s3.err⟩ else
-  let s4 := stage .col [] s3.rest
-  ⟨false, s1.err || s2.err || s3.err || s4.err⟩
+def conductWith (stage : Comp → List Comp → List Comp → List Arrival → StageRes) (arrs : List Arrival) : Outcome :=
+  let s1 := stage .pr [.sp, .au, .col] [] arrs
+  if s1.blocked then ⟨false, s1.err, true⟩ else
+  if s1.interrupt then ⟨true, s1.err, false⟩ else
+  let s2 := stage .sp [.au, .col] s1.seen s1.rest
+  if s2.blocked then ⟨false, s1.err || s2.err, true⟩ else
+  if s2.interrupt then ⟨true, s1.err || s2.err, false⟩ else
+  let s3 := stage .au [.col] s2.seen s2.rest
+  if s3.blocked then ⟨false, s1.err || s2.err || s3.err, true⟩ else
+  if s3.interrupt then ⟨true, s1.err || s2.err || s3.err, false⟩ else
+  let s4 := stage .col [] s3.seen s3.rest
+  ⟨false, s1.err || s2.err || s3.err || s4.err, s4.blocked⟩
 
 def conduct := conductWith awaitStage
 def conductOld := conductWith awaitStageOld
+
+/-- every component reports exactly once (its error channel carries one value) -/
+def complete (arrs : List Arrival) : Bool :=
+  [Comp.pr, .sp, .au, .col].all fun c => (arrs.filter (·.comp == c)).length == 1
+
+/-- all ways to insert `x` into a list -/
+def inserts {α} (x : α) : List α → List (List α)
+  | [] => [[x]]
+  | y :: ys => (x :: y :: ys) :: (inserts x ys).map (y :: ·)
+
+def perms {α} : List α → List (List α)
+  | [] => [[]]
+  | x :: xs => (perms xs).flatMap (inserts x)
+
+/-- every order in which the four components' results can become visible, with every
+combination of nil / non-nil errors: 4! × 2⁴ = 384 schedules -/
+def schedules : List (List Arrival) :=
+  (perms [Comp.pr, .sp, .au, .col]).flatMap fun order =>
+    [true, false].flatMap fun e1 => [true, false].flatMap fun e2 => [true, false].flatMap fun e3 =>
+      [true, false].map fun e4 =>
+        (order.zip [e1, e2, e3, e4]).map fun p => ⟨p.1, p.2⟩
 
 end Shk.Conduct
